@@ -237,6 +237,33 @@ def gen_cases(prop, u, seed, tier, probe=None):
                     for w in sorted(set([0, 1, 2, 3, nv - 1, nv, nv + 1, 255, 256, 2**32, 2**32 + 1, 2**63, 2**64 - 1])):
                         if w < nv: continue
                         case(i, 0, 'setw:%d:8:%d' % (r['offset'], w), v, 'tag-word', nv=nv, tag=w, off=r['offset'], last=(r['offset'] + 8 == len(ps[0]) // 2))
+    elif prop == 'C09':
+        plan = []
+        for i, t in enumerate(u.types):
+            if is_fragile(t): continue
+            for v in values_for(t, rng, 2 if quick else 4)[:2 if quick else 4]:
+                plan.append((i, v))
+        answers = probe(['schema %d %s' % (i, v) for i, v in plan])
+        streams = []
+        for (i, v), a in zip(plan, answers):
+            ps = parse_schema(a)
+            if ps is not None and 40 < len(ps[0]) // 2 < 3000:
+                streams.append((i, v, ps[0]))
+        reps = 12 if quick else 40
+        for idx, (i, v, hx) in enumerate(streams):
+            n = len(hx) // 2
+            if quick and idx % 2: continue
+            variants = [('valid', hx)]
+            for k in sorted(set([1, 8, 12, 28, 36, n // 2, n - 9, n - 1])):
+                if 0 < k < n: variants.append(('trunc%d' % k, hx[:2 * k]))
+            variants.append(('magic', '00' + hx[2:]))
+            variants.append(('typehash', hx[:26] + ('%02x' % (int(hx[26:28], 16) ^ 1)) + hx[28:]))
+            j, _, other = streams[(idx + 1) % len(streams)]
+            if j != i: variants.append(('foreign', other))
+            variants.append(('garbage', bytes(rng.randrange(256) for _ in range(64)).hex()))
+            for name, data in variants:
+                for l in ['full', 'mem', 'mmap', 'map']:
+                    cs.add('leak %d %s %d %s' % (i, l, reps, data), kind='leak', ti=i, val=v, loader=l, variant=name, reps=reps, family='leak-' + name.rstrip('0123456789'))
     elif prop == 'C08':
         loaders = ['full', 'mem', 'mmap', 'map']
         for i, t in enumerate(u.types):
